@@ -59,6 +59,11 @@ CHECKS.update({
             "Real BanMan on banlist.json under a simulated clock: Ban (address/subnet, relative/absolute/default durations), Unban, Discourage, ClearBanned, clock jumps exactly onto expiry +-1 s, clean restart, crash restart (no destructor), deleted/torn ban file; after every mutating op every reference entry is re-queried at its network/last/sibling/first-host-bit addresses and embedded forms against an own bit-wise prefix matcher; string and BIP155 round trips of every generated address/subnet are checked in passing.",
             "Only the ban-store part of C60 has a clock/restart/fault in it; the pure round-trip clauses are exercised only as far as the ban store touches them. Discouragement checked only in the 'stays discouraged' direction within filter capacity. One known finding (fc-prefixed IPv6 subnets with CJDNS reachable) is listed in known_findings.txt.",
             COMP_TECH, "DESIGN.md §5 C60"),
+    "C22": ("nodesim/mempool", "exploration",
+            "Seeded mempool histories on a real node (submissions of 11 shapes incl. replacements aimed at the fee threshold, TRUC/dust topologies, invalid and non-standard transactions; packages; prioritisation; blocks confirming a subset of the mempool and conflicting with the rest; reorgs; clock jumps past expiry; small size limits) with CTxMemPool::check on every step; after every operation the public mempool contents are re-derived naively (inputs in model UTXO(tip) or created by another entry, no double spend, parent/child links, ancestor/descendant/cluster statistics, totals, fees) and every entry is judged for inclusion at tip+1 by the model (finality, maturity, BIP68, script label) and by TestBlockValidity of a block made of all entries.",
+            "Trusts RefChain and the generator's script labels; one node, cooperative schedule.",
+            "deterministic simulation: real node + mempool driven by seeded submission/block/reorg/clock histories; oracle = naive recomputation from public mempool contents + reference chain model + the node's own TestBlockValidity",
+            "DESIGN.md §5 C22"),
     "C38": ("compsim/cmpctblock", "exploration",
             "Real PartiallyDownloadedBlock/CBlockHeaderAndShortTxIDs/BlockTransactionsRequest (every message round-tripped through its wire codec) against a standalone mempool and extra-transaction ring churned by seeded ops, an adversarial announcer (prefilled-index games, tx-list lies incl. CVE-2012-2459 tail duplication, duplicate/decoy/random short ids) and an adversarial responder (wrong/reordered/short/long blocktxn); FillBlock == OK implies exactly the announced header and transaction list, merkle-unmutated, witness commitment intact; an honest announcement + honest response of a well-formed block must reconstruct.",
             "Component level only: the in-situ clause (block stored under hash H at a real node) is not decided here. Real 48-bit short-id collisions are reached through one offline-searched fixture (two pool transactions colliding under a fixed block key); collisions involving a block transaction are out of reach.",
